@@ -348,6 +348,8 @@ fn add_assign_binary(dest: &mut [u64], src: &[u64])
                     'body_top': 'let ghost verif_prev = out@;',
                     'body_bottom': ('proof { assert forall |r: int| start_row as int <= r < row as int + 1 && cell(*self, r, col as int) implies exists |k: int| 0 <= k < out@.len() && #[trigger] out@[k] as int == r by {'
                                     ' if r == row as int { assert(out@[out@.len() - 1] as int == r); } else { let k0 = choose |k: int| 0 <= k < verif_prev.len() && #[trigger] verif_prev[k] as int == r; assert(out@[k0] == verif_prev[k0]); } } }')}})
+    u.fn('src/matrix.rs', 'height', impl=T, ret='r', ensures=['r == self.height'])
+    u.fn('src/matrix.rs', 'width', impl=T, ret='r', ensures=['r == self.width'])
     # the two allocating wrappers: same contract as the _into forms, on the returned vector
     u.fn('src/matrix.rs', 'query_non_zero_columns', impl=T, ret='r',
          requires=['dm_wf(*self)', '(row as int) < self.height', 'start_col <= self.width'],
